@@ -251,8 +251,14 @@ def check_case(ctx, case):
                           "edge_length_sd_is_real_number", "C05.edge_summary:sd_real", lambda: "sd=%r for values %r" % (gs, vals))
                 if len(vals) >= 2 and isinstance(gs, (int, float)):
                     ws = samples.ref_sample_sd(vals)
-                    ctx.check(abs(gs - ws) <= 1e-6 * (1 + scale), "edge_length_sd", "C05.edge_summary:length_sd",
-                              lambda: "sd %r want %r values %r" % (gs, ws, vals))
+                    # one-pass sums of squares lose about n*eps*max(v)^2 of the variance: the allowance for the sd follows
+                    # from that (never wider than the old flat allowance)
+                    vmax = max(abs(x) for x in vals)
+                    sd_tol = min(1e-6 * (1 + scale), 1e-9 * (1 + ws) + 16 * len(vals) * 2.3e-16 * vmax * vmax / max(ws, 1e-300))
+                    ctx.check(abs(gs - ws) <= sd_tol, "edge_length_sd", "C05.edge_summary:length_sd",
+                              lambda: "sd %r want %r (allowance %r) values %r" % (gs, ws, sd_tol, vals))
+                    if vmax > 1000 * max(ws, 1e-300) and ws > 0:
+                        ctx.cls("edge_length_sd:spread_small_against_mean")
                 if st_["sel"] == "mean-length":
                     ctx.check(abs(e.length - samples.ref_mean(vals)) <= TOL * (1 + scale), "edge_length_set_to_mean", "C05.set_edge_lengths:mean")
                 elif st_["sel"] == "median-length":
